@@ -47,6 +47,7 @@ type vfsShard struct {
 	key   string
 	parts []vfsPart // in shard order
 	s     zoekt.Searcher
+	blob  []byte
 }
 type vfsPart struct {
 	repo *vfsRepo
@@ -239,7 +240,8 @@ func vfsGenWorld(t testing.TB, r *vfRand, o vfsGenOpts, tag string) *vfsWorld {
 			for _, rp := range w.repos[i : i+k] {
 				parts = append(parts, vfsPart{rp, rp.docs})
 			}
-			s := vfsLoad(t, vfsCompoundBlob(t, parts, tag+key))
+			cblob := vfsCompoundBlob(t, parts, tag+key)
+			s := vfsLoad(t, cblob)
 			// shard order = order reported by the shard itself
 			rl, err := s.List(systemtenant.WithUnsafeContext(context.Background()), &query.Const{Value: true}, nil)
 			if err != nil {
@@ -256,7 +258,7 @@ func vfsGenWorld(t testing.TB, r *vfRand, o vfsGenOpts, tag string) *vfsWorld {
 			if len(ordered) != len(parts) {
 				t.Fatalf("compound shard lists %d repos, want %d", len(ordered), len(parts))
 			}
-			w.shards = append(w.shards, &vfsShard{key: key, parts: ordered, s: s})
+			w.shards = append(w.shards, &vfsShard{key: key, parts: ordered, s: s, blob: cblob})
 			i += k
 			continue
 		}
@@ -267,10 +269,12 @@ func vfsGenWorld(t testing.TB, r *vfRand, o vfsGenOpts, tag string) *vfsWorld {
 		}
 		if o.split && len(rp.docs) >= 2 && r.Chance(50) {
 			cut := 1 + r.Intn(len(rp.docs)-1)
-			w.shards = append(w.shards, &vfsShard{key: key + "a", parts: []vfsPart{{rp, rp.docs[:cut]}}, s: vfsLoad(t, vfsSimpleBlob(t, rp, rp.docs[:cut]))})
-			w.shards = append(w.shards, &vfsShard{key: key + "b", parts: []vfsPart{{rp, rp.docs[cut:]}}, s: vfsLoad(t, vfsSimpleBlob(t, rp, rp.docs[cut:]))})
+			ba, bb := vfsSimpleBlob(t, rp, rp.docs[:cut]), vfsSimpleBlob(t, rp, rp.docs[cut:])
+			w.shards = append(w.shards, &vfsShard{key: key + "a", parts: []vfsPart{{rp, rp.docs[:cut]}}, s: vfsLoad(t, ba), blob: ba})
+			w.shards = append(w.shards, &vfsShard{key: key + "b", parts: []vfsPart{{rp, rp.docs[cut:]}}, s: vfsLoad(t, bb), blob: bb})
 		} else {
-			w.shards = append(w.shards, &vfsShard{key: key, parts: []vfsPart{{rp, rp.docs}}, s: vfsLoad(t, vfsSimpleBlob(t, rp, rp.docs))})
+			bs := vfsSimpleBlob(t, rp, rp.docs)
+			w.shards = append(w.shards, &vfsShard{key: key, parts: []vfsPart{{rp, rp.docs}}, s: vfsLoad(t, bs), blob: bs})
 		}
 	}
 	for _, rp := range w.repos {
@@ -307,6 +311,31 @@ func (w *vfsWorld) newSearcher() (zoekt.Streamer, *shardedSearcher) {
 	ss.replace(m)
 	ss.markReady()
 	return &typeRepoSearcher{Streamer: ss}, ss
+}
+
+// newDirectorySearcher writes the world's shards as files into a fresh directory and loads them with the
+// real search.NewDirectorySearcher (directory watcher + shard loader + typeRepoSearcher). The caller closes the
+// searcher and removes the directory.
+func (w *vfsWorld) newDirectorySearcher(t testing.TB, tag string) (zoekt.Streamer, string) {
+	dir, err := os.MkdirTemp(os.Getenv("VERIF_TMP"), "vfsdir-"+tag+"-")
+	if err != nil {
+		t.Fatal(err)
+	}
+	for _, sh := range w.shards {
+		version := index.IndexFormatVersion
+		if len(sh.parts) > 1 {
+			version = index.NextIndexFormatVersion
+		}
+		fn := filepath.Join(dir, fmt.Sprintf("%s_v%d.00000.zoekt", sh.key, version))
+		if err := os.WriteFile(fn, sh.blob, 0o600); err != nil {
+			t.Fatal(err)
+		}
+	}
+	s, err := NewDirectorySearcher(dir)
+	if err != nil {
+		t.Fatal(err)
+	}
+	return s, dir
 }
 
 // ---- queries with a reference evaluator
